@@ -94,6 +94,12 @@ func genC04(r *Rng, tier string, idx int) *Plan {
 		p.Ops = append(p.Ops, Op{ID: nid(), Kind: "send", B: b, Path: targets[b], S: "own"})
 	}
 	p.Ops = append(p.Ops, Op{ID: nid(), Kind: "send", B: attacker, Path: targets[0], S: "own"})
+	if idx%4 == 3 {
+		// the store fails to save the tokens of a callback whose exchange succeeded; the callback is then
+		// replayed: the login state must have been consumed by the successful exchange
+		p.Mode = "store-fault-then-replay"
+		p.Faults = append(p.Faults, Fault{Site: "store.SetTokenResponse", Nth: r.Range(1, nb), Kind: r.Pick([]string{"err-before", "err-after"})})
+	}
 	return p
 }
 
